@@ -1,7 +1,7 @@
 (* C16 — Term analysis is order-invariant and inverse to term construction. *)
 From Coq Require Import List NArith ZArith QArith Bool Permutation Reals.
 From Mathy Require Import Tok Num Expr Parser Util Terms Sem.
-From MathyProofs Require Import SemFacts TermsFacts FactorFacts TermText.
+From MathyProofs Require Import SemFacts TermsFacts TermsSigned FactorFacts TermText.
 Import ListNotations.
 
 (* "has like terms" does not depend on the order or the grouping of the added terms: two sums whose addends (the maximal
@@ -13,6 +13,19 @@ Print Assumptions C16_like_terms_order_invariant.
 
 (* 'are like terms' is symmetric, and reflexive on everything get_term recognises as a term (with a finite exponent:
    nan is not equal to itself) *)
+(* the same for SIGNED sums: the added terms of a sum are its maximal operands that are neither + nor - (t1 - t2 + t3 has the
+   terms t1, t2, t3); two sums or differences whose terms are permutations of each other get the same answer, however grouped *)
+Theorem C16_like_terms_signed_order_invariant : forall e1 e2, is_addsub_e e1 = true -> is_addsub_e e2 = true ->
+  Permutation (saddends e1) (saddends e2) -> has_like_terms e1 [] = has_like_terms e2 [].
+Proof. exact has_like_terms_signed_perm. Qed.
+Print Assumptions C16_like_terms_signed_order_invariant.
+(* x - y + xy  and  xy + x - y : same terms, no like terms in either order *)
+Example C16_signed_example : let x := Var 120%N in let y := Var 121%N in
+  let e1 := Bin KAdd (Bin KSub x y) (Bin KMul x y) in let e2 := Bin KSub (Bin KAdd (Bin KMul x y) x) y in
+  Permutation (saddends e1) (saddends e2) /\ has_like_terms e1 [] = false /\ has_like_terms e2 [] = false /\
+  has_like_terms (Bin KSub (Bin KAdd (Bin KMul x y) x) (Bin KMul y x)) [] = true.
+Proof. cbv zeta. split; [cbn; apply Permutation_sym, (Permutation_cons_app [_; _] [] _); reflexivity|]. repeat split; vm_compute; reflexivity. Qed.
+
 Theorem C16_like_symmetric : forall root1 p1 root2 p2, terms_are_like root1 p1 root2 p2 = terms_are_like root2 p2 root1 p1.
 Proof. intros. unfold terms_are_like. apply like_sym. Qed.
 Print Assumptions C16_like_symmetric.
